@@ -120,7 +120,8 @@ impl<F> Receiving<F> {
                 waker.wake();
                 *self = Self::Rcvd(frame);
             }
-            _ => (),
+            // a frame that is still undelivered, already read, or a reset stay as they are
+            other => *self = other,
         }
     }
 
